@@ -143,3 +143,17 @@ Theorem C04_source_fold_accounted : forall f g pan a so nd init,
   let '(o, m, t, c) := run_fold [a] so f g pan (pipe_of gen_fold nd) (length a) init in
   releases (m ++ t) = a.
 Proof. exact src_fold_accounted. Qed.
+
+(* GenericArrayIter::fold / rfold (src/iter.rs) as regenerated: the live window walked from the
+   front / the back with the iterator's own index / index_back as the position, advanced before
+   the caller's function runs; the iterator's Drop releases what is left when that function
+   panics.  [a] is the live window. *)
+Theorem C04_source_iter_fold : forall f g pan a so nd init,
+  let '(o, m, t, c) := run_fold [a] so f g pan (pipe_of gen_iter_fold nd) (length a) init in
+  (o, (m ++ t)%list, List.concat c) = fold_ true g pan init a.
+Proof. exact tie_iter_fold. Qed.
+
+Theorem C04_source_iter_rfold : forall f g pan a so nd init,
+  let '(o, m, t, c) := run_fold [a] so f g pan (pipe_of gen_iter_rfold nd) (length a) init in
+  exists t', fold_ true g pan init (rev a) = (o, (m ++ t')%list, List.concat c) /\ Permutation t t'.
+Proof. exact tie_iter_rfold. Qed.
